@@ -81,7 +81,13 @@ BuildNeed(pp, s) == LET RECURSIVE Mx(_)
 \* stages that buffer output elements by design (a lazy List in the middle, iter.Pull): their look-ahead is
 \* counted in output elements, not in source pulls
 Buffered(pp) == 2 * Cardinality({i \in DOMAIN pp : pp[i].buf = 1})
-Allowed(pp, s, p0, dem) == MaxOf(p0, Need(pp, s, dem + Buffered(pp))) + 2 * Len(pp)
+\* ... and it is look-ahead on the buffering stage's OWN output: when later stages add elements (prepend, concat) the final output
+\* is ahead of that stage, so the need is also taken at the position of every buffering stage
+BufNeed(pp, s, c) == LET idx == {i \in DOMAIN pp : pp[i].buf = 1}
+                         RECURSIVE Mx(_)
+                         Mx(S) == IF S = {} THEN 0 ELSE LET i == CHOOSE x \in S : TRUE IN MaxOf(Need(SubSeq(pp, 1, i), s, c), Mx(S \ {i}))
+                     IN Mx(idx)
+Allowed(pp, s, p0, dem) == MaxOf(MaxOf(p0, Need(pp, s, dem + Buffered(pp))), BufNeed(pp, s, dem + Buffered(pp))) + 2 * Len(pp)
 
 VARIABLES src,     \* the source sequence (for an unbounded generator: its visible prefix)
           pipe,    \* the stages, left to right
